@@ -20,13 +20,35 @@ extern "C" {
 int cif_value_deserialize(const void *src, size_t len, cif_value_tp *dest);
 extern const char cif_errlist[][80];
 extern const int cif_nerr;
+#ifdef CIFRUN_FAULT
+int cifv_fault_install(void);
+void cifv_fault_arm(long k, unsigned mask);
+long cifv_fault_disarm(int *did_fire, const char **kind, const char **site);
+#endif
 #if defined(__has_feature)
 #if __has_feature(address_sanitizer)
 #define HAVE_LSAN 1
 int __lsan_do_recoverable_leak_check(void);
+size_t __sanitizer_get_current_allocated_bytes(void);
 #endif
 #endif
 }
+
+// ------------------------------------------------------------------------------------------------------------------
+// fault window (C17): call marks the API call under test; only the first FW of a command that carries "fail_at" is
+// armed, so that the harness's own preparation and dumping (which also use the library) never see an injected failure
+#ifdef CIFRUN_FAULT
+static long fw_pending = -1; static unsigned fw_mask = 7; static bool fw_used = false;
+static long fw_n = 0; static int fw_fired = 0; static std::string fw_kind, fw_site;
+struct FwGuard {
+    bool active;
+    FwGuard() { active = (fw_pending >= 0 && !fw_used); if (active) { fw_used = true; cifv_fault_arm(fw_pending, fw_mask); } }
+    ~FwGuard() { if (active) { const char *k = "", *t = ""; fw_n = cifv_fault_disarm(&fw_fired, &k, &t); fw_kind = k; fw_site = t; } }
+};
+#define FW(expr) ([&]() { FwGuard fw_guard_; return (expr); }())
+#else
+#define FW(expr) (expr)
+#endif
 
 // ------------------------------------------------------------------------------------------------------------------
 // state
@@ -608,7 +630,7 @@ static void do_parse(const J &cmd, W &w) {
     FILE *f = fmemopen(bytes.empty() ? (void *) "" : (void *) bytes.data(), bytes.size(), "rb");
     if (!f) { f = tmpfile(); }
     std::string before = env_state();
-    int rc = cif_parse(f, cmd.geti("noopts", 0) ? nullptr : opts, cifp);
+    int rc = FW(cif_parse(f, cmd.geti("noopts", 0) ? nullptr : opts, cifp));
     std::string after = env_state();
     fclose(f);
     if (!target.empty() && cif) cifs[target] = cif;
@@ -628,7 +650,7 @@ static void do_write(const J &cmd, W &w) {
     char *buf = nullptr; size_t len = 0;
     FILE *f = open_memstream(&buf, &len);
     std::string before = env_state();
-    int rc = cif_write(f, cmd.geti("noopts", 0) ? nullptr : wo, cif);
+    int rc = FW(cif_write(f, cmd.geti("noopts", 0) ? nullptr : wo, cif));
     std::string after = env_state();
     fclose(f);
     free(wo);
@@ -648,6 +670,17 @@ static void do_write(const J &cmd, W &w) {
     }
 }
 
+// ------------------------------------------------------------------------------------------------------------------
+// ledger mode (C16): what the caller owns before / after each command, as (kind:address) names
+static bool ledger_on = false;
+static long long quiet_calls = 0;
+static void ledger_snapshot(std::set<std::string> &s) {
+    char b[64];
+#define SNAP(M, K) for (auto &p : M) if (p.second) { snprintf(b, sizeof b, K ":%p", (void *) p.second); s.insert(b); }
+    SNAP(cifs, "cif") SNAP(conts, "cont") SNAP(loops, "loop") SNAP(itrs, "itr") SNAP(pkts, "pkt") SNAP(vals, "val")
+#undef SNAP
+}
+
 static long long handle_one(const J &cmd, W &w) {
     std::string op = cmd.gets("op");
     w.kvs("op", op.c_str());
@@ -662,14 +695,19 @@ static long long handle_one(const J &cmd, W &w) {
         has_rc = false;
 #ifdef HAVE_LSAN
         if (cmd.geti("leakcheck", 1)) w.kv("leak", __lsan_do_recoverable_leak_check());
+        if (ledger_on) w.kv("live", (long long) __sanitizer_get_current_allocated_bytes());
 #endif
+    } else if (op == "ledger") {
+        has_rc = false;
+        if (cmd.has("on")) ledger_on = cmd.geti("on", 1) != 0;
+        if (cmd.has("mark")) w.kvs("mark", cmd.gets("mark").c_str());
     } else if (op == "errlist") {
         has_rc = false;
         w.kv("nerr", cif_nerr); w.key("msgs"); w.arr();
         for (int i = 0; i < cif_nerr; i++) w.cstr(cif_errlist[i]);
         w.end_arr();
     } else if (op == "cif_create") {
-        cif_tp *c = nullptr; rc = cif_create(&c);
+        cif_tp *c = nullptr; rc = FW(cif_create(&c));
         if (rc == CIF_OK) { std::string k = cmd.gets("cif"); if (find(cifs, k)) cif_destroy(cifs[k]); cifs[k] = c; }
     } else if (op == "cif_destroy") {
         std::string k = cmd.gets("cif"); cif_tp *c = find(cifs, k);
@@ -678,7 +716,7 @@ static long long handle_one(const J &cmd, W &w) {
         std::vector<std::string> hs;
         for (auto &p : cont_cif) if (p.second == k) hs.push_back(p.first);
         for (auto &h : hs) { drop_loops_via(h); cif_container_tp *x = find(conts, h); if (x) cif_container_free(x); conts.erase(h); cont_cif.erase(h); }
-        rc = cif_destroy(c); cifs.erase(k);
+        rc = FW(cif_destroy(c)); cifs.erase(k);
     } else if (op == "create_block" || op == "get_block") {
         std::string k = cmd.gets("cif"); cif_tp *c = find(cifs, k);
         if (!c) { w.kvs("err", "nocif"); return 0; }
@@ -686,13 +724,13 @@ static long long handle_one(const J &cmd, W &w) {
         std::string h = cmd.gets("h");
         cif_container_tp *b = nullptr;
         bool want = !h.empty();
-        if (op == "create_block") rc = cif_create_block(c, code ? U(*code) : nullptr, want ? &b : nullptr);
-        else rc = cif_get_block(c, code ? U(*code) : nullptr, want ? &b : nullptr);
+        if (op == "create_block") rc = FW(cif_create_block(c, code ? U(*code) : nullptr, want ? &b : nullptr));
+        else rc = FW(cif_get_block(c, code ? U(*code) : nullptr, want ? &b : nullptr));
         if (rc == CIF_OK && want) set_cont(h, b, k);
     } else if (op == "get_all_blocks") {
         cif_tp *c = find(cifs, cmd.gets("cif"));
         if (!c) { w.kvs("err", "nocif"); return 0; }
-        cif_block_tp **bl = nullptr; rc = cif_get_all_blocks(c, &bl);
+        cif_block_tp **bl = nullptr; rc = FW(cif_get_all_blocks(c, &bl));
         w.key("codes"); w.arr();
         if (rc == CIF_OK) { for (cif_block_tp **b = bl; *b; ++b) { UChar *code = nullptr; if (cif_container_get_code(*b, &code) == CIF_OK) { w.str(fromU(code)); free(code); } cif_container_free(*b); } free(bl); }
         w.end_arr();
@@ -702,25 +740,25 @@ static long long handle_one(const J &cmd, W &w) {
         const ustr *code = cmd.getu("code"); std::string h = cmd.gets("h");
         cif_container_tp *f = nullptr; bool want = !h.empty();
         static const ustr empty;
-        if (op == "create_frame") rc = cif_container_create_frame(c, U(code ? *code : empty), want ? &f : nullptr);
-        else rc = cif_container_get_frame(c, U(code ? *code : empty), want ? &f : nullptr);
+        if (op == "create_frame") rc = FW(cif_container_create_frame(c, U(code ? *code : empty), want ? &f : nullptr));
+        else rc = FW(cif_container_get_frame(c, U(code ? *code : empty), want ? &f : nullptr));
         if (rc == CIF_OK && want) set_cont(h, f, cont_cif[ck]);
     } else if (op == "get_all_frames") {
         cif_container_tp *c = find(conts, cmd.gets("cont"));
         if (!c) { w.kvs("err", "nocont"); return 0; }
-        cif_frame_tp **fl = nullptr; rc = cif_container_get_all_frames(c, &fl);
+        cif_frame_tp **fl = nullptr; rc = FW(cif_container_get_all_frames(c, &fl));
         w.key("codes"); w.arr();
         if (rc == CIF_OK) { for (cif_frame_tp **b = fl; *b; ++b) { UChar *code = nullptr; if (cif_container_get_code(*b, &code) == CIF_OK) { w.str(fromU(code)); free(code); } cif_container_free(*b); } free(fl); }
         w.end_arr();
     } else if (op == "get_code") {
         cif_container_tp *c = find(conts, cmd.gets("cont"));
         if (!c) { w.kvs("err", "nocont"); return 0; }
-        UChar *code = nullptr; rc = cif_container_get_code(c, &code);
+        UChar *code = nullptr; rc = FW(cif_container_get_code(c, &code));
         if (rc == CIF_OK) { w.kvu("code", fromU(code)); free(code); }
     } else if (op == "assert_block") {
         cif_container_tp *c = find(conts, cmd.gets("cont"));
         if (!c) { w.kvs("err", "nocont"); return 0; }
-        rc = cif_container_assert_block(c);
+        rc = FW(cif_container_assert_block(c));
     } else if (op == "container_free") {
         std::string ck = cmd.gets("cont"); cif_container_tp *c = find(conts, ck);
         if (!c) { w.kvs("err", "nocont"); return 0; }
@@ -729,7 +767,7 @@ static long long handle_one(const J &cmd, W &w) {
         std::string ck = cmd.gets("cont"); cif_container_tp *c = find(conts, ck);
         if (!c) { w.kvs("err", "nocont"); return 0; }
         drop_loops_via(ck);
-        rc = cif_container_destroy(c);
+        rc = FW(cif_container_destroy(c));
         // the handle is released by the library when the statement executed (CIF_OK or CIF_INVALID_HANDLE)
         if (rc == CIF_OK || rc == CIF_INVALID_HANDLE) { conts.erase(ck); cont_cif.erase(ck); }
     } else if (op == "create_loop") {
@@ -738,14 +776,14 @@ static long long handle_one(const J &cmd, W &w) {
         const ustr *cat = cmd.getu("category");
         std::vector<ustr> store; std::vector<UChar *> ptrs; names_array(cmd.get("names"), store, ptrs);
         std::string h = cmd.gets("h"); cif_loop_tp *l = nullptr; bool want = !h.empty();
-        rc = cif_container_create_loop(c, cat ? U(*cat) : nullptr, cmd.geti("nullnames", 0) ? nullptr : ptrs.data(), want ? &l : nullptr);
+        rc = FW(cif_container_create_loop(c, cat ? U(*cat) : nullptr, cmd.geti("nullnames", 0) ? nullptr : ptrs.data(), want ? &l : nullptr));
         if (rc == CIF_OK && want) set_loop(h, l, ck);
     } else if (op == "get_category_loop" || op == "get_item_loop") {
         std::string ck = cmd.gets("cont"); cif_container_tp *c = find(conts, ck);
         if (!c) { w.kvs("err", "nocont"); return 0; }
         std::string h = cmd.gets("h"); cif_loop_tp *l = nullptr; bool want = !h.empty();
-        if (op == "get_category_loop") { const ustr *cat = cmd.getu("category"); rc = cif_container_get_category_loop(c, cat ? U(*cat) : nullptr, want ? &l : nullptr); }
-        else { const ustr *n = cmd.getu("name"); static const ustr e; rc = cif_container_get_item_loop(c, U(n ? *n : e), want ? &l : nullptr); }
+        if (op == "get_category_loop") { const ustr *cat = cmd.getu("category"); rc = FW(cif_container_get_category_loop(c, cat ? U(*cat) : nullptr, want ? &l : nullptr)); }
+        else { const ustr *n = cmd.getu("name"); static const ustr e; rc = FW(cif_container_get_item_loop(c, U(n ? *n : e), want ? &l : nullptr)); }
         if (rc == CIF_OK && want) {
             // report what the handle says about itself
             UChar *cat = nullptr; if (cif_loop_get_category(l, &cat) == CIF_OK) { w.key("cat"); if (cat) w.str(fromU(cat)); else w.null(); free(cat); }
@@ -754,7 +792,7 @@ static long long handle_one(const J &cmd, W &w) {
     } else if (op == "get_all_loops") {
         cif_container_tp *c = find(conts, cmd.gets("cont"));
         if (!c) { w.kvs("err", "nocont"); return 0; }
-        cif_loop_tp **ls = nullptr; rc = cif_container_get_all_loops(c, &ls);
+        cif_loop_tp **ls = nullptr; rc = FW(cif_container_get_all_loops(c, &ls));
         w.key("loops"); w.arr();
         if (rc == CIF_OK) {
             for (cif_loop_tp **l = ls; *l; ++l) {
@@ -773,7 +811,7 @@ static long long handle_one(const J &cmd, W &w) {
     } else if (op == "prune") {
         cif_container_tp *c = find(conts, cmd.gets("cont"));
         if (!c) { w.kvs("err", "nocont"); return 0; }
-        rc = cif_container_prune(c);
+        rc = FW(cif_container_prune(c));
     } else if (op == "get_value") {
         cif_container_tp *c = find(conts, cmd.gets("cont"));
         if (!c) { w.kvs("err", "nocont"); return 0; }
@@ -781,7 +819,7 @@ static long long handle_one(const J &cmd, W &w) {
         cif_value_tp *v = nullptr;
         bool want = cmd.geti("want", 1) != 0;
         if (cmd.geti("reuse", 0)) { cif_value_create(CIF_LIST_KIND, &v); }
-        rc = cif_container_get_value(c, U(n ? *n : e), want ? &v : nullptr);
+        rc = FW(cif_container_get_value(c, U(n ? *n : e), want ? &v : nullptr));
         if (want && (rc == CIF_OK || rc == CIF_AMBIGUOUS_ITEM)) { w.key("v"); dump_value(w, v); }
         cif_value_free(v);
     } else if (op == "set_value") {
@@ -791,13 +829,13 @@ static long long handle_one(const J &cmd, W &w) {
         cif_value_tp *v = nullptr; int brc = CIF_OK;
         if (cmd.has("vh")) v = find(vals, cmd.gets("vh")); else if (cmd.has("v")) brc = build_value(*cmd.get("v"), &v);
         if (brc != CIF_OK) { w.kv("build_rc", brc); return 0; }
-        rc = cif_container_set_value(c, n ? U(*n) : nullptr, v);
+        rc = FW(cif_container_set_value(c, n ? U(*n) : nullptr, v));
         if (!cmd.has("vh")) cif_value_free(v);
     } else if (op == "remove_item") {
         cif_container_tp *c = find(conts, cmd.gets("cont"));
         if (!c) { w.kvs("err", "nocont"); return 0; }
         const ustr *n = cmd.getu("name");
-        rc = cif_container_remove_item(c, n ? U(*n) : nullptr);
+        rc = FW(cif_container_remove_item(c, n ? U(*n) : nullptr));
     } else if (op == "loop_free") {
         std::string lk = cmd.gets("loop"); if (!find(loops, lk)) { w.kvs("err", "noloop"); return 0; }
         drop_loop_handle(lk); has_rc = false;
@@ -806,19 +844,19 @@ static long long handle_one(const J &cmd, W &w) {
         if (!l) { w.kvs("err", "noloop"); return 0; }
         // iterators over this handle would dangle: abort them first
         for (auto it = itr_via.begin(); it != itr_via.end();) { if (it->second == lk) { cif_pktitr_tp *x = find(itrs, it->first); if (x) cif_pktitr_abort(x); itrs.erase(it->first); it = itr_via.erase(it); } else ++it; }
-        rc = cif_loop_destroy(l);
+        rc = FW(cif_loop_destroy(l));
         if (rc == CIF_OK) { loops.erase(lk); loop_via.erase(lk); }
     } else if (op == "loop_get_category") {
         cif_loop_tp *l = find(loops, cmd.gets("loop")); if (!l) { w.kvs("err", "noloop"); return 0; }
-        UChar *cat = nullptr; rc = cif_loop_get_category(l, &cat);
+        UChar *cat = nullptr; rc = FW(cif_loop_get_category(l, &cat));
         if (rc == CIF_OK) { w.key("cat"); if (cat) w.str(fromU(cat)); else w.null(); free(cat); }
     } else if (op == "loop_set_category") {
         cif_loop_tp *l = find(loops, cmd.gets("loop")); if (!l) { w.kvs("err", "noloop"); return 0; }
         const ustr *cat = cmd.getu("category");
-        rc = cif_loop_set_category(l, cat ? U(*cat) : nullptr);
+        rc = FW(cif_loop_set_category(l, cat ? U(*cat) : nullptr));
     } else if (op == "loop_get_names") {
         cif_loop_tp *l = find(loops, cmd.gets("loop")); if (!l) { w.kvs("err", "noloop"); return 0; }
-        UChar **names = nullptr; rc = cif_loop_get_names(l, &names);
+        UChar **names = nullptr; rc = FW(cif_loop_get_names(l, &names));
         w.key("names"); w.arr();
         if (rc == CIF_OK) { for (UChar **n = names; *n; ++n) { w.str(fromU(*n)); free(*n); } free(names); }
         w.end_arr();
@@ -828,7 +866,7 @@ static long long handle_one(const J &cmd, W &w) {
         cif_value_tp *v = nullptr; int brc = CIF_OK;
         if (cmd.has("vh")) v = find(vals, cmd.gets("vh")); else if (cmd.has("v")) brc = build_value(*cmd.get("v"), &v);
         if (brc != CIF_OK) { w.kv("build_rc", brc); return 0; }
-        rc = cif_loop_add_item(l, U(n ? *n : e), v);
+        rc = FW(cif_loop_add_item(l, U(n ? *n : e), v));
         if (!cmd.has("vh")) cif_value_free(v);
     } else if (op == "loop_add_packet") {
         cif_loop_tp *l = find(loops, cmd.gets("loop")); if (!l) { w.kvs("err", "noloop"); return 0; }
@@ -836,11 +874,11 @@ static long long handle_one(const J &cmd, W &w) {
         if (cmd.has("ph")) p = find(pkts, cmd.gets("ph"));
         else { int brc = build_packet(*cmd.get("packet"), &p); own = true; if (brc != CIF_OK) { w.kv("build_rc", brc); return 0; } }
         if (!p) { w.kvs("err", "nopkt"); return 0; }
-        rc = cif_loop_add_packet(l, p);
+        rc = FW(cif_loop_add_packet(l, p));
         if (own) cif_packet_free(p);
     } else if (op == "get_packets") {
         std::string lk = cmd.gets("loop"); cif_loop_tp *l = find(loops, lk); if (!l) { w.kvs("err", "noloop"); return 0; }
-        cif_pktitr_tp *it = nullptr; rc = cif_loop_get_packets(l, &it);
+        cif_pktitr_tp *it = nullptr; rc = FW(cif_loop_get_packets(l, &it));
         std::string ik = cmd.gets("itr");
         if (rc == CIF_OK) { if (find(itrs, ik)) { cif_pktitr_abort(itrs[ik]); } itrs[ik] = it; itr_via[ik] = lk; }
     } else if (op == "itr_next") {
@@ -848,7 +886,7 @@ static long long handle_one(const J &cmd, W &w) {
         cif_packet_tp *p = nullptr; bool want = cmd.geti("want", 1) != 0;
         std::string ph = cmd.gets("ph");
         if (!ph.empty() && find(pkts, ph)) p = pkts[ph];
-        rc = cif_pktitr_next_packet(it, want ? &p : nullptr);
+        rc = FW(cif_pktitr_next_packet(it, want ? &p : nullptr));
         if (rc == CIF_OK && want) { w.key("pkt"); dump_packet(w, p); }
         if (!ph.empty()) { if (p) pkts[ph] = p; } else cif_packet_free(p);
     } else if (op == "itr_update") {
@@ -857,14 +895,14 @@ static long long handle_one(const J &cmd, W &w) {
         if (cmd.has("ph")) p = find(pkts, cmd.gets("ph"));
         else { int brc = build_packet(*cmd.get("packet"), &p); own = true; if (brc != CIF_OK) { w.kv("build_rc", brc); return 0; } }
         if (!p) { w.kvs("err", "nopkt"); return 0; }
-        rc = cif_pktitr_update_packet(it, p);
+        rc = FW(cif_pktitr_update_packet(it, p));
         if (own) cif_packet_free(p);
     } else if (op == "itr_remove") {
         cif_pktitr_tp *it = find(itrs, cmd.gets("itr")); if (!it) { w.kvs("err", "noitr"); return 0; }
-        rc = cif_pktitr_remove_packet(it);
+        rc = FW(cif_pktitr_remove_packet(it));
     } else if (op == "itr_close" || op == "itr_abort") {
         std::string ik = cmd.gets("itr"); cif_pktitr_tp *it = find(itrs, ik); if (!it) { w.kvs("err", "noitr"); return 0; }
-        rc = (op == "itr_close") ? cif_pktitr_close(it) : cif_pktitr_abort(it);
+        rc = FW((op == "itr_close") ? cif_pktitr_close(it) : cif_pktitr_abort(it));
         itrs.erase(ik); itr_via.erase(ik);
     } else if (op == "project") {
         cif_tp *c = find(cifs, cmd.gets("cif")); if (!c) { w.kvs("err", "nocif"); return 0; }
@@ -884,7 +922,7 @@ static long long handle_one(const J &cmd, W &w) {
             else if (n == "packet_start") h.handle_packet_start = nullptr; else if (n == "packet_end") h.handle_packet_end = nullptr;
             else if (n == "item") h.handle_item = nullptr;
         }
-        rc = cif_walk(c, &h, &ctx);
+        rc = FW(cif_walk(c, &h, &ctx));
         ctx.log.end_arr();
         w.key("log"); w.raw(ctx.log.s);
         w.kv("autocommit", sqlite3_get_autocommit(c->db));
@@ -895,7 +933,7 @@ static long long handle_one(const J &cmd, W &w) {
     }
     // ---- value / packet object operations ----------------------------------------------------------------------
     else if (op == "value_create") {
-        cif_value_tp *v = nullptr; rc = cif_value_create((cif_kind_tp) cmd.geti("kind", CIF_UNK_KIND), &v);
+        cif_value_tp *v = nullptr; rc = FW(cif_value_create((cif_kind_tp) cmd.geti("kind", CIF_UNK_KIND), &v));
         if (rc == CIF_OK) { std::string k = cmd.gets("v"); if (find(vals, k)) cif_value_free(vals[k]); vals[k] = v; }
     } else if (op == "value_build") {
         cif_value_tp *v = nullptr; rc = build_value(*cmd.get("val"), &v);
@@ -917,38 +955,38 @@ static long long handle_one(const J &cmd, W &w) {
         size_t idx = (size_t) cmd.geti("index", 0);
         std::string outk = cmd.gets("out");
         if (f == "clean") { cif_value_clean(v); has_rc = false; }
-        else if (f == "init") rc = cif_value_init(v, (cif_kind_tp) cmd.geti("kind", CIF_UNK_KIND));
-        else if (f == "init_char") rc = cif_value_init_char(v, udup(cmd.getu("text") ? *cmd.getu("text") : e));
-        else if (f == "copy_char") rc = cif_value_copy_char(v, U(cmd.getu("text") ? *cmd.getu("text") : e));
-        else if (f == "parse_numb") { UChar *t = udup(cmd.getu("text") ? *cmd.getu("text") : e); rc = cif_value_parse_numb(v, t); if (rc != CIF_OK) free(t); }
-        else if (f == "init_numb") rc = cif_value_init_numb(v, hex_dbl(cmd.gets("val")), hex_dbl(cmd.gets("su")), (int) cmd.geti("scale", 0), (int) cmd.geti("mlz", 0));
-        else if (f == "autoinit_numb") rc = cif_value_autoinit_numb(v, hex_dbl(cmd.gets("val")), hex_dbl(cmd.gets("su")), (unsigned) cmd.geti("rule", 19));
-        else if (f == "set_quoted") rc = cif_value_set_quoted(v, cmd.geti("q", 0) ? CIF_QUOTED : CIF_NOT_QUOTED);
-        else if (f == "try_quoted") rc = cif_value_try_quoted(v, cmd.geti("q", 0) ? CIF_QUOTED : CIF_NOT_QUOTED);
-        else if (f == "get_number") { double d = 0; rc = cif_value_get_number(v, &d); if (rc == CIF_OK) w.kvs("d", dbl_hex(d).c_str()); }
-        else if (f == "get_su") { double d = 0; rc = cif_value_get_su(v, &d); if (rc == CIF_OK) w.kvs("d", dbl_hex(d).c_str()); }
-        else if (f == "get_text") { UChar *t = nullptr; rc = cif_value_get_text(v, &t); if (rc == CIF_OK) { w.key("text"); if (t) w.str(fromU(t)); else w.null(); free(t); } }
-        else if (f == "count") { size_t n = 0; rc = cif_value_get_element_count(v, &n); if (rc == CIF_OK) w.kv("n", (long long) n); }
+        else if (f == "init") rc = FW(cif_value_init(v, (cif_kind_tp) cmd.geti("kind", CIF_UNK_KIND)));
+        else if (f == "init_char") rc = FW(cif_value_init_char(v, udup(cmd.getu("text") ? *cmd.getu("text") : e)));
+        else if (f == "copy_char") rc = FW(cif_value_copy_char(v, U(cmd.getu("text") ? *cmd.getu("text") : e)));
+        else if (f == "parse_numb") { UChar *t = udup(cmd.getu("text") ? *cmd.getu("text") : e); rc = FW(cif_value_parse_numb(v, t)); if (rc != CIF_OK) free(t); }
+        else if (f == "init_numb") rc = FW(cif_value_init_numb(v, hex_dbl(cmd.gets("val")), hex_dbl(cmd.gets("su")), (int) cmd.geti("scale", 0), (int) cmd.geti("mlz", 0)));
+        else if (f == "autoinit_numb") rc = FW(cif_value_autoinit_numb(v, hex_dbl(cmd.gets("val")), hex_dbl(cmd.gets("su")), (unsigned) cmd.geti("rule", 19)));
+        else if (f == "set_quoted") rc = FW(cif_value_set_quoted(v, cmd.geti("q", 0) ? CIF_QUOTED : CIF_NOT_QUOTED));
+        else if (f == "try_quoted") rc = FW(cif_value_try_quoted(v, cmd.geti("q", 0) ? CIF_QUOTED : CIF_NOT_QUOTED));
+        else if (f == "get_number") { double d = 0; rc = FW(cif_value_get_number(v, &d)); if (rc == CIF_OK) w.kvs("d", dbl_hex(d).c_str()); }
+        else if (f == "get_su") { double d = 0; rc = FW(cif_value_get_su(v, &d)); if (rc == CIF_OK) w.kvs("d", dbl_hex(d).c_str()); }
+        else if (f == "get_text") { UChar *t = nullptr; rc = FW(cif_value_get_text(v, &t)); if (rc == CIF_OK) { w.key("text"); if (t) w.str(fromU(t)); else w.null(); free(t); } }
+        else if (f == "count") { size_t n = 0; rc = FW(cif_value_get_element_count(v, &n)); if (rc == CIF_OK) w.kv("n", (long long) n); }
         else if (f == "clone") {
             cif_value_tp *cl = nullptr; bool into = cmd.geti("into", 0) != 0;
             if (into) { cl = find(vals, outk); }
-            rc = cif_value_clone(v, &cl);
+            rc = FW(cif_value_clone(v, &cl));
             if (rc == CIF_OK && !into) { if (find(vals, outk)) cif_value_free(vals[outk]); vals[outk] = cl; }
         }
-        else if (f == "get_at") { cif_value_tp *el = nullptr; rc = cif_value_get_element_at(v, idx, &el); if (rc == CIF_OK && !outk.empty()) refs[outk] = el; }
-        else if (f == "set_at") rc = cif_value_set_element_at(v, idx, arg);
-        else if (f == "insert_at") rc = cif_value_insert_element_at(v, idx, arg);
+        else if (f == "get_at") { cif_value_tp *el = nullptr; rc = FW(cif_value_get_element_at(v, idx, &el)); if (rc == CIF_OK && !outk.empty()) refs[outk] = el; }
+        else if (f == "set_at") rc = FW(cif_value_set_element_at(v, idx, arg));
+        else if (f == "insert_at") rc = FW(cif_value_insert_element_at(v, idx, arg));
         else if (f == "remove_at") {
             cif_value_tp *el = nullptr; bool cap = !outk.empty();
-            rc = cif_value_remove_element_at(v, idx, cap ? &el : nullptr);
+            rc = FW(cif_value_remove_element_at(v, idx, cap ? &el : nullptr));
             if (rc == CIF_OK && cap) { if (find(vals, outk)) cif_value_free(vals[outk]); vals[outk] = el; }
         }
-        else if (f == "get_keys") { const UChar **keys = nullptr; rc = cif_value_get_keys(v, &keys); if (rc == CIF_OK) { w.key("keys"); w.arr(); for (const UChar **q = keys; *q; ++q) w.str(fromU(*q)); w.end_arr(); free(keys); } }
-        else if (f == "set_key") rc = cif_value_set_item_by_key(v, U(key ? *key : e), arg);
-        else if (f == "get_key") { cif_value_tp *el = nullptr; rc = cif_value_get_item_by_key(v, U(key ? *key : e), outk.empty() ? nullptr : &el); if (rc == CIF_OK && !outk.empty()) refs[outk] = el; }
+        else if (f == "get_keys") { const UChar **keys = nullptr; rc = FW(cif_value_get_keys(v, &keys)); if (rc == CIF_OK) { w.key("keys"); w.arr(); for (const UChar **q = keys; *q; ++q) w.str(fromU(*q)); w.end_arr(); free(keys); } }
+        else if (f == "set_key") rc = FW(cif_value_set_item_by_key(v, U(key ? *key : e), arg));
+        else if (f == "get_key") { cif_value_tp *el = nullptr; rc = FW(cif_value_get_item_by_key(v, U(key ? *key : e), outk.empty() ? nullptr : &el)); if (rc == CIF_OK && !outk.empty()) refs[outk] = el; }
         else if (f == "remove_key") {
             cif_value_tp *el = nullptr; bool cap = !outk.empty();
-            rc = cif_value_remove_item_by_key(v, U(key ? *key : e), cap ? &el : nullptr);
+            rc = FW(cif_value_remove_item_by_key(v, U(key ? *key : e), cap ? &el : nullptr));
             if (rc == CIF_OK && cap) { if (find(vals, outk)) cif_value_free(vals[outk]); vals[outk] = el; }
         }
         else { w.kvs("err", "badf"); return 0; }
@@ -956,19 +994,19 @@ static long long handle_one(const J &cmd, W &w) {
         refs.erase(cmd.gets("v")); has_rc = false;
     } else if (op == "packet_create") {
         std::vector<ustr> store; std::vector<UChar *> ptrs; names_array(cmd.get("names"), store, ptrs);
-        cif_packet_tp *p = nullptr; rc = cif_packet_create(&p, cmd.geti("nullnames", 0) ? nullptr : ptrs.data());
+        cif_packet_tp *p = nullptr; rc = FW(cif_packet_create(&p, cmd.geti("nullnames", 0) ? nullptr : ptrs.data()));
         if (rc == CIF_OK) { std::string k = cmd.gets("p"); if (find(pkts, k)) cif_packet_free(pkts[k]); pkts[k] = p; }
     } else if (op == "packet_op") {
         std::string k = cmd.gets("p"); cif_packet_tp *p = find(pkts, k); if (!p) { w.kvs("err", "nopkt"); return 0; }
         std::string f = cmd.gets("f"); const ustr *name = cmd.getu("name"); static const ustr e;
         std::string ak = cmd.gets("arg"); cif_value_tp *arg = ak.empty() ? nullptr : (find(vals, ak) ? find(vals, ak) : find(refs, ak));
         std::string outk = cmd.gets("out");
-        if (f == "get_names") { const UChar **ns = nullptr; rc = cif_packet_get_names(p, &ns); if (rc == CIF_OK) { w.key("names"); w.arr(); for (const UChar **q = ns; *q; ++q) w.str(fromU(*q)); w.end_arr(); free(ns); } }
-        else if (f == "set") rc = cif_packet_set_item(p, U(name ? *name : e), arg);
-        else if (f == "get") { cif_value_tp *el = nullptr; rc = cif_packet_get_item(p, U(name ? *name : e), outk.empty() ? nullptr : &el); if (rc == CIF_OK && !outk.empty()) refs[outk] = el; }
+        if (f == "get_names") { const UChar **ns = nullptr; rc = FW(cif_packet_get_names(p, &ns)); if (rc == CIF_OK) { w.key("names"); w.arr(); for (const UChar **q = ns; *q; ++q) w.str(fromU(*q)); w.end_arr(); free(ns); } }
+        else if (f == "set") rc = FW(cif_packet_set_item(p, U(name ? *name : e), arg));
+        else if (f == "get") { cif_value_tp *el = nullptr; rc = FW(cif_packet_get_item(p, U(name ? *name : e), outk.empty() ? nullptr : &el)); if (rc == CIF_OK && !outk.empty()) refs[outk] = el; }
         else if (f == "remove") {
             cif_value_tp *el = nullptr; bool cap = !outk.empty();
-            rc = cif_packet_remove_item(p, U(name ? *name : e), cap ? &el : nullptr);
+            rc = FW(cif_packet_remove_item(p, U(name ? *name : e), cap ? &el : nullptr));
             if (rc == CIF_OK && cap) { if (find(vals, outk)) cif_value_free(vals[outk]); vals[outk] = el; }
         }
         else if (f == "free") { cif_packet_free(p); pkts.erase(k); has_rc = false; }
@@ -979,7 +1017,7 @@ static long long handle_one(const J &cmd, W &w) {
     else if (op == "analyze") {
         const ustr *s = cmd.getu("s"); static const ustr e;
         struct cif_string_analysis_s a; memset(&a, 0, sizeof a);
-        rc = cif_analyze_string(U(s ? *s : e), (int) cmd.geti("unq", 1), (int) cmd.geti("triple", 1), (int32_t) cmd.geti("limit", 2048), &a);
+        rc = FW(cif_analyze_string(U(s ? *s : e), (int) cmd.geti("unq", 1), (int) cmd.geti("triple", 1), (int32_t) cmd.geti("limit", 2048), &a));
         if (rc == CIF_OK) {
             w.key("delim"); w.str((const char16_t *) a.delim, a.delim_length < 4 ? a.delim_length : 3);
             w.kv("dl", a.delim_length); w.kv("len", a.length); w.kv("first", a.length_first); w.kv("last", a.length_last); w.kv("max", a.length_max);
@@ -991,17 +1029,17 @@ static long long handle_one(const J &cmd, W &w) {
         has_rc = false; w.kv("res", cif_is_reserved_string(U(s ? *s : e)) ? 1 : 0);
     } else if (op == "normalize") {
         const ustr *s = cmd.getu("s"); static const ustr e; UChar *n = nullptr;
-        rc = cif_normalize(U(s ? *s : e), (int32_t) cmd.geti("len", -1), cmd.geti("discard", 0) ? nullptr : &n);
+        rc = FW(cif_normalize(U(s ? *s : e), (int32_t) cmd.geti("len", -1), cmd.geti("discard", 0) ? nullptr : &n));
         if (rc == CIF_OK && n) { w.kvu("n", fromU(n)); free(n); }
     } else if (op == "ustrdup") {
         const ustr *s = cmd.getu("s"); UChar *d = cif_u_strdup(s ? U(*s) : nullptr);
         has_rc = false; w.key("d"); if (d) w.str(fromU(d)); else w.null(); free(d);
     } else if (op == "cstr_to_ustr") {
         std::string c = cmd.has("hex") ? unhex(cmd.gets("hex")) : cmd.gets("s");
-        UChar *u = nullptr; rc = cif_cstr_to_ustr(cmd.geti("null", 0) ? nullptr : c.c_str(), (int32_t) cmd.geti("len", -1), &u);
+        UChar *u = nullptr; rc = FW(cif_cstr_to_ustr(cmd.geti("null", 0) ? nullptr : c.c_str(), (int32_t) cmd.geti("len", -1), &u));
         if (rc == CIF_OK) { w.key("u"); if (u) w.str(fromU(u)); else w.null(); free(u); }
     } else if (op == "api_version") {
-        char *v = nullptr; rc = cif_get_api_version(&v); if (rc == CIF_OK) { w.kvs("version", v); free(v); }
+        char *v = nullptr; rc = FW(cif_get_api_version(&v)); if (rc == CIF_OK) { w.kvs("version", v); free(v); }
     } else if (op == "setenv") {
         has_rc = false;
         if (cmd.has("locale")) { const char *r = setlocale(LC_NUMERIC, cmd.gets("locale").c_str()); w.kvs("locale", r ? r : "FAILED"); }
@@ -1024,6 +1062,9 @@ static void crash_handler(int sig) {
 int main(int argc, char **argv) {
     (void) argc; (void) argv;
     setvbuf(stdout, nullptr, _IOFBF, 1 << 16);
+#ifdef CIFRUN_FAULT
+    if (cifv_fault_install() != 0) { fputs("{\"err\":\"fault-install\"}\n", stdout); return 3; }
+#endif
     const char *loc = getenv("CIFRUN_LOCALE");
     setlocale(LC_ALL, loc ? loc : "C.utf8");
 #ifndef HAVE_LSAN
@@ -1038,7 +1079,32 @@ int main(int argc, char **argv) {
         J cmd = jp.val();
         W w; w.obj();
         if (!jp.ok || cmd.t != J::OBJ) { w.kvs("err", "badjson"); }
-        else handle_one(cmd, w);
+#ifdef CIFRUN_FAULT
+        else if (cmd.has("fail_at")) {
+            // C17: count the allocations requested during this call and make the k-th one fail (k = 0: count only)
+            fw_pending = (long) cmd.geti("fail_at", 0); fw_mask = (unsigned) cmd.geti("fail_kinds", 7); fw_used = false; fw_n = 0; fw_fired = 0;
+            handle_one(cmd, w);
+            fw_pending = -1;
+            w.kv("allocs", (long long) fw_n); w.kv("fired", fw_fired); w.kv("window", fw_used ? 1 : 0);
+            if (fw_fired) { w.kvs("akind", fw_kind.c_str()); w.kvs("site", fw_site.c_str()); }
+        }
+#endif
+        else if (!ledger_on) handle_one(cmd, w);
+        else {
+            std::set<std::string> s0, s1;
+            ledger_snapshot(s0);
+            handle_one(cmd, w);
+            ledger_snapshot(s1);
+            bool any = false;
+            for (auto &x : s1) if (!s0.count(x)) any = true;
+            for (auto &x : s0) if (!s1.count(x)) any = true;
+            if (any) {
+                w.key("lg"); w.obj();
+                w.key("a"); w.arr(); for (auto &x : s1) if (!s0.count(x)) w.cstr(x.c_str()); w.end_arr();
+                w.key("r"); w.arr(); for (auto &x : s0) if (!s1.count(x)) w.cstr(x.c_str()); w.end_arr();
+                w.end_obj();
+            }
+        }
         w.end_obj();
         fputs(w.s.c_str(), stdout); fputc('\n', stdout);
         fflush(stdout);
